@@ -28,8 +28,53 @@ def predicate(res, q, r):
     return len(cs) >= 2 and any(n["kind"] == "virtual" for c in cs for n in c["nodes"]) and any(len(at) >= 2 for at in r["lattice"])
 
 
+def server_agrees(res, rnd, tier):
+    """the property through the running server, also after a restart on saved user words: the server's answer equals the engine's answer
+    on the dictionary the server must be holding (whose candidates are judged above), so its candidates re-read to the input too"""
+    from checks import server_common as sc
+    from srv import build_binaries
+    okb, blog = build_binaries()
+    if not okb:
+        res.tie_broken("the repository no longer builds with the hooks", blog[-1500:])
+        return 0
+    words = [("あおい", "青い"), ("たかい", "高い"), ("よまない", "読まない"), ("たべない", "食べない"), ("しずかだ", "静かだ"), ("かかない", "書かない"), ("みない", "見ない")]
+    items = []
+    for _ in range(3 if tier == "quick" else 30):
+        base = {"std": [{"reading": "そら", "stem": "空", "speech": {"Noun": "Common"}}, {"reading": "あお", "stem": "青", "speech": {"Noun": "Common"}},
+                        {"reading": "ほん", "stem": "本", "speech": {"Noun": "Common"}}],
+                "anc": [{"reading": "を", "stem": "を", "speech": {"Particle": "Case"}}, {"reading": "ぞ", "stem": "ぞ", "speech": {"Particle": "SentenceFinal"}}], "tankan": []}
+        regs = rnd.sample(words, 3)
+        probes = []
+        for r, w in regs:
+            stem = r[:-2] if r.endswith("ない") else r[:-1]
+            probes += [stem + t for t in ("", "ぞら", "を", "く", "い", "そら")]
+        reqs = [{"kind": "register", "wkind": "Guess", "reading": r, "word": w} for r, w in regs]
+        reqs += [{"kind": "convert", "input": p, "context": "Normal"} for p in probes] + [{"kind": "restart"}] + [{"kind": "convert", "input": p, "context": "Normal"} for p in probes]
+        items.append((base, reqs, regs))
+    runs = sc.run_histories([(b, r) for b, r, _ in items], threads=4)
+    n = 0
+    for hr, (base, reqs, regs) in zip(runs, items):
+        for what, detail in hr.problems:
+            res.violation(what, {"base": hr.base, "requests": hr.requests, "detail": detail})
+        ents = harness([{"op": "dic_new_guessed", "reading": r, "word": w} for r, w in regs])
+        forms = harness([{"op": "dic_conj", "entry": e["ok"]} for e in ents if "ok" in e])
+        std = [[e["reading"], e["stem"], e["speech"]] for e in base["std"]]
+        for e, f in zip([e for e in ents if "ok" in e], forms):
+            std += [[fr, fw, e["ok"]["speech"]] for fw, fr in f.get("ok", [])]
+        d = {"alphabet": sc.ALPHABET, "std": std, "anc": [[e["reading"], e["stem"], e["speech"]] for e in base["anc"]]}
+        convs = [(ev, obs) for ev, obs in hr.events if ev["t"] == "convert"]
+        lib = harness([{"op": "kkc_texts", "dict": d, "context": "Normal", "freq": [], "input": ev["input"], "n": 100} for ev, _ in convs])
+        for (ev, obs), l in zip(convs, lib):
+            n += 1
+            if obs is not None and sorted(obs["texts"]) != sorted(l.get("ok") or []):
+                res.violation(f"the server answers {ev['input']!r} with {obs['texts']}, the engine on the dictionary the server holds (base + the registered words' forms) gives {l.get('ok')}",
+                              {"kind": "server_agrees", "base": hr.base, "requests": hr.requests, "input": ev["input"]})
+    return n
+
+
 def run(tier, seed):
     res, cov = kkc_run(PROP, tier, seed, "Props/C01.v", [], predicate)
+    cov["server_conversions_compared"] = server_agrees(res, random.Random(seed + 11), tier)
     cov["rule"] = ("random small dictionaries over 2-6 kana (overlapping readings, duplicates, prefixes/suffixes/counters/particles), inputs built from dictionary readings plus noise, "
                    "four contexts, random learned counts, n in {1,2,3,5,100}; non-trivial = >= 2 candidates, a virtual tail, and >= 2 nodes ending at some position")
     return res.finish(cov, ["empty readings never enter the lattice (lookup by non-empty key)"])
